@@ -62,7 +62,7 @@ func basicSetup(mode string, pre bool) func(w *gwWorld) error {
 }
 
 func C09(c *core.Ctx, replay string) {
-	c.Rule = "TLC simulates behaviours of the abstract gateway spec S3Gw/S3GwBasic in versioned mode (put, copy, delete, delete-by-version incl. null and never-issued ids, get-by-version, list-versions, enable/suspend; empty bucket and a bucket with an object that predates versioning); each behaviour is replayed over HTTP against a real gateway with a versioning directory and after EVERY step the real replies and the real state (ListObjectVersions with paging, GET by every version id, GET by key) are compared with the spec's prediction. Non-trivial: a behaviour with at least 2 version-creating steps."
+	c.Rule = "TLC simulates behaviours of the abstract gateway spec S3Gw/S3GwBasic in versioned mode (put, copy, delete, delete-by-version incl. null and never-issued ids, get-by-version, list-versions, enable/suspend; empty bucket and a bucket with an object that predates versioning); each behaviour is replayed over HTTP against real gateways with a versioning directory (xattr and sidecar metadata stores) and after EVERY step the real replies and the real state (ListObjectVersions with paging, GET by every version id, GET by key) are compared with the spec's prediction. Non-trivial: a behaviour with at least 2 version-creating steps."
 	c.Assumptions = []string{"version-creating writes to one key are issued sequentially by one client (ULID order within one millisecond across processes is not relied upon)",
 		"directory-marker keys are excluded (unversioned by design)"}
 	// exhaustive: the spec's own invariants and the C09 action property on a small model
@@ -77,52 +77,58 @@ func C09(c *core.Ctx, replay string) {
 	c.TLCRuns = append(c.TLCRuns, mc.Summary("S3GwBasic", "SpecMC versioned 1 key 2 contents nvid<=3: TypeOK, VersionsPreserved"))
 	mc.Cleanup()
 
-	env := MustEnv(c, true, false, nil)
-	if env == nil {
-		return
-	}
-	defer env.Close()
-	w := newGwWorld(c, "C09", env, nil)
 	total := 0
-	for _, pre := range []bool{true, false} {
-		n := c.Pick(60, 1200)
-		res, err := tlc.Run(c.Scratch, tlc.Opts{Module: "S3GwBasic", Workers: 1, Simulate: fmt.Sprintf("num=%d", n), Depth: 12, Seed: c.Seed + 7,
-			CfgText: basicCfg("Spec", "versioned", pre, c.Pick(7, 9), `{"k1", "k2"}`, `{"A", "B", "C"}`, "INVARIANT TypeOK\n")})
-		if err != nil || (!res.OK && res.Violated != "") {
-			c.Inconclusive("S3GwBasic simulation: %v %v", err, res.Tail(20))
+	for _, sidecar := range []bool{false, true} {
+		env := MustEnv(c, true, sidecar, nil)
+		if env == nil {
 			return
 		}
-		c.States += res.Distinct
-		c.Transitions += res.Generated
-		c.TLCRuns = append(c.TLCRuns, res.Summary("S3GwBasic", fmt.Sprintf("simulate versioned pre=%v", pre)))
-		behs := parseBehaviours(res.PrintLines)
-		res.Cleanup()
-		if len(behs) == 0 {
-			c.Inconclusive("no behaviours from S3GwBasic: %s", res.Tail(10))
-			return
-		}
-		for i, b := range behs {
-			nw := 0
-			for _, s := range b.Tr {
-				if s.Op == "PutObject" || s.Op == "CopyObject" || s.Op == "DeleteObject" {
-					nw++
+		w := newGwWorld(c, "C09", env, nil)
+		for _, pre := range []bool{true, false} {
+			n := c.Pick(60, 1200)
+			if sidecar {
+				// the same space on the sidecar metadata store (attributes are files kept by path)
+				n = c.Pick(25, 400)
+			}
+			res, err := tlc.Run(c.Scratch, tlc.Opts{Module: "S3GwBasic", Workers: 1, Simulate: fmt.Sprintf("num=%d", n), Depth: 12, Seed: c.Seed + 7 + int64(len(c.TLCRuns)),
+				CfgText: basicCfg("Spec", "versioned", pre, c.Pick(7, 9), `{"k1", "k2"}`, `{"A", "B", "C"}`, "INVARIANT TypeOK\n")})
+			if err != nil || (!res.OK && res.Violated != "") {
+				c.Inconclusive("S3GwBasic simulation: %v %v", err, res.Tail(20))
+				return
+			}
+			c.States += res.Distinct
+			c.Transitions += res.Generated
+			c.TLCRuns = append(c.TLCRuns, res.Summary("S3GwBasic", fmt.Sprintf("simulate versioned pre=%v", pre)))
+			behs := parseBehaviours(res.PrintLines)
+			res.Cleanup()
+			if len(behs) == 0 {
+				c.Inconclusive("no behaviours from S3GwBasic: %s", res.Tail(10))
+				return
+			}
+			for i, b := range behs {
+				nw := 0
+				for _, s := range b.Tr {
+					if s.Op == "PutObject" || s.Op == "CopyObject" || s.Op == "DeleteObject" {
+						nw++
+					}
+				}
+				w.replayBehaviour(total+i, b, []string{"bkt"}, []string{"k1", "k2"}, basicSetup("versioned", pre), true)
+				nt := ""
+				if nw >= 2 {
+					nt = fmt.Sprintf("%v-%d", pre, i)
+				}
+				c.Eval(nt)
+				c.TracesValidated++
+				if i < 2 {
+					c.Sample(b.Tr[:min(3, len(b.Tr))])
+				}
+				if c.NumViolations() > 40 {
+					break
 				}
 			}
-			w.replayBehaviour(total+i, b, []string{"bkt"}, []string{"k1", "k2"}, basicSetup("versioned", pre), true)
-			nt := ""
-			if nw >= 2 {
-				nt = fmt.Sprintf("%v-%d", pre, i)
-			}
-			c.Eval(nt)
-			c.TracesValidated++
-			if i < 2 {
-				c.Sample(b.Tr[:min(3, len(b.Tr))])
-			}
-			if c.NumViolations() > 40 {
-				break
-			}
+			total += len(behs)
 		}
-		total += len(behs)
+		env.Close()
 	}
 	c.Extra["behaviours"] = total
 	c09Burst(c)
